@@ -55,7 +55,7 @@ TrRelease == /\ IsEvent("Release")
              /\ Mechless
 
 TrAdjust == /\ IsEvent("Adjust")
-            /\ LET e == Trace[l] IN AdjustOK(s, e.n, e.gs) /\ s' = Snap(AdjustF(s, e.n, e.gs), e)
+            /\ LET e == Trace[l] IN AdjustOK(s, e.v, e.gs) /\ s' = Snap(AdjustF(s, e.v, e.gs), e)
             /\ Mechless
 
 TrNext == TrReset \/ TrAcq \/ TrCancel \/ TrRet \/ TrRelIntent \/ TrRelease \/ TrAdjust
